@@ -786,11 +786,10 @@ func doRecover(caller *frame) value {
 // runtimeError builds the value recover() returns for a run-time panic: an
 // error whose Error() is msg.
 func (i *interpreter) runtimeError(msg string) value {
-	if !strings.HasPrefix(msg, "runtime error: ") {
-		msg = "runtime error: " + msg
-	}
+	// runtime.errorString.Error() prepends "runtime error: " itself
+	msg = strings.TrimPrefix(msg, "runtime error: ")
 	if i.runtimeErrorString != nil {
 		return iface{i.runtimeErrorString, msg}
 	}
-	return iface{types.Typ[types.String], msg}
+	return iface{types.Typ[types.String], "runtime error: " + msg}
 }
